@@ -965,4 +965,36 @@ def threads_differ(f):
     return False, None
 
 
+def views_batch_wrong(f):
+    """C10: several views of ONE proof (prover's seed / another seed / no seed) listed in one batch: on the real crates the result of a view is not
+    what that view gives on its own (true mask for the prover's seed, another value for another seed, none without a seed)"""
+    outs = _runs(f, (1, 2))
+    bad = []
+    for o in outs:
+        if 'crash' in o:
+            return None, o
+        order = f.cfg.get('verify_order') or list(range(len(o['members'])))
+        truth = o['members'][0]['blindings'][0]
+        for v in (o.get('verify') or []):
+            if v['action'] == 'VerifyOnly':
+                continue
+            if v['result'] != 'ok':
+                bad.append({'action': v['action'], 'result': v['result']})
+                break
+            wrong = None
+            for pos, i in enumerate(order):
+                op = (f.cfg['members'][i].get('tamper_statement') or {}).get('op')
+                got = v['masks'][pos] if pos < len(v['masks']) else 'missing'
+                if op is None and got != truth:
+                    wrong = {'position': pos, 'view': 'prover seed', 'got': got, 'mask': truth}
+                elif op in ('seed_other', 'seed_zero') and (got is None or got == truth or got == 'missing'):
+                    wrong = {'position': pos, 'view': op, 'got': got, 'mask': truth}
+                elif op == 'seed_none' and got is not None:
+                    wrong = {'position': pos, 'view': op, 'got': got}
+            if wrong:
+                bad.append(dict(wrong, action=v['action']))
+                break
+    return (len(bad) == len(outs)), bad[:1]
+
+
 PREDS = {k: v for k, v in globals().items() if callable(v) and not k.startswith('_') and k != 'run_replay'}
